@@ -26,6 +26,8 @@ if [ ! -f "$WT/_baseline_failed_$HEAD.txt" ]; then
   build_and_test base
   cp "$OUT/failed_base.txt" "$WT/_baseline_failed_$HEAD.txt"
 fi
+# the previous seed may still be compiled into the libraries: rebuild the clean tree first
+ninja -C "$B" -j8 -k 0 all > "$OUT/build_clean.log" 2>&1
 bash "$M/run_demo.sh" "$WT" "$B" > "$OUT/demo_clean.log" 2>&1; DC=$?
 git -C "$WT" apply "$M/patch.diff" || { echo "patch does not apply" >> "$LOG"; exit 8; }
 build_and_test patched
